@@ -201,6 +201,9 @@ const (
 )
 
 type c16State struct {
+	// retained: live results of earlier calls (bindings, blocks) with the text they showed when returned;
+	// later calls must not alter them
+	retained   []func() (name, was, now string)
 	pA         *bcl.Prog
 	dumpA      []byte
 	outA, logA *bytes.Buffer // the writers pA was parsed with
@@ -249,12 +252,30 @@ var c16Calls = []struct {
 		err := bcl.Unmarshal([]byte(c16SrcBad), &t, bcl.OptOutput(&out), bcl.OptLogger(&log))
 		return fmt.Sprintf("%+v err=%v out=%q log=%q", t, err, out.String(), log.String())
 	}},
+	{"Interpret(slice P1) and keep the result", func(st *c16State) string { return interpretKeep(st, c16SliceP1) }},
+	{"Interpret(slice P2) and keep the result", func(st *c16State) string { return interpretKeep(st, c16SliceP2) }},
 	{"InterpretFile(A)", func(st *c16State) string {
 		return impl.InterpretFile(impl.NewScriptFile(c16SrcA, impl.Chunks(7, 9))).Summary()
 	}},
 	{"Interpret(A,disasm+trace+stats)", func(st *c16State) string {
 		return impl.Interpret(c16SrcA, bcl.OptDisasm(true), bcl.OptTrace(true), bcl.OptStats(true)).Summary()
 	}},
+}
+
+const (
+	c16SliceP1 = "def s \"a\" { v = 1 }\ndef t { w = 0 }\ndef s \"b\" { v = 2 }\nbind s:all -> slice"
+	c16SliceP2 = "def t \"x\" { v = 10 }\ndef t \"y\" { v = 20 }\ndef t \"z\" { v = 30 }\nbind t:all -> slice"
+)
+
+// interpretKeep interprets src and retains the live blocks and binding for later inspection.
+func interpretKeep(st *c16State, src string) string {
+	var out, log bytes.Buffer
+	bl, bi, err := bcl.Interpret([]byte(src), bcl.OptOutput(&out), bcl.OptLogger(&log))
+	was := fmt.Sprintf("blocks=%s binding=%s", impl.BlocksStr(bl), impl.BindingStr(bi))
+	st.retained = append(st.retained, func() (string, string, string) {
+		return "the result of an earlier Interpret", was, fmt.Sprintf("blocks=%s binding=%s", impl.BlocksStr(bl), impl.BindingStr(bi))
+	})
+	return fmt.Sprintf("%s err=%v", was, err)
 }
 
 func obsStr(p impl.Parsed) string {
@@ -293,6 +314,11 @@ var subC16Hist = &fw.Sub{Name: "c16.histories", New: func() fw.Case { return &c1
 			if got != c16Fresh[k] {
 				return fw.Failf("each call's result equals its result as the first call of a fresh state: "+fw.Trunc(c16Fresh[k], 300),
 					"after history %v: %s", names, fw.Trunc(got, 300))
+			}
+			for _, r := range st.retained {
+				if what, was, now := r(); was != now {
+					return fw.Failf(what+" is not altered by later calls: "+fw.Trunc(was, 300), "after history %v it reads: %s", names, fw.Trunc(now, 300))
+				}
 			}
 		}
 		fw.TallyOutcome("history-independent")
@@ -427,13 +453,13 @@ func init() {
 		Level: "model_checking",
 		Rule: "(a) every map iteration order (explored exhaustively through the map-order choice point of the rewritten package) of every range-over-map executed by Bind, for the binding x target space of C15 and for Unmarshal of programs whose keys collide on one field, hold several faulty fields, or hold several named inner blocks: target and error text must be identical for all orders; " +
 			"(b) every goroutine schedule with <=B preemptions (quick 1, thorough 2) of Parse, ParseFile (3 chunks) and Interpret on corpus inputs (valid, several diagnostics, lexical failure): dump bytes, diagnostics, output, blocks, binding identical on all schedules; " +
-			"(c) every history of <=L calls (quick 3, thorough 4) over a 12-call alphabet (Parse of 3 inputs, Interpret, Execute/Dump of one shared Prog, LoadProg+Execute, Unmarshal good/bad, InterpretFile, Interpret with all options): each call's result equals its result as the first call of a fresh state, and Dump(p) is unchanged by Execute(p); histories that start in a fresh process (each of three same-named struct types bound first) must give the same Bind outcome table; " +
+			"(c) every history of <=L calls (quick 3, thorough 4) over a 14-call alphabet (Parse of 3 inputs, Interpret, Execute/Dump of one shared Prog, LoadProg+Execute, Unmarshal good/bad, InterpretFile, Interpret with all options): each call's result equals its result as the first call of a fresh state, and Dump(p) is unchanged by Execute(p); histories that start in a fresh process (each of three same-named struct types bound first) must give the same Bind outcome table; " +
 			"(d) supplementary (sampling): a digest over all first-call results from fresh processes with GOMAXPROCS 1/2/16 (different hash seeds) must be identical.",
 		Subs:           []*fw.Sub{subC16Map, subC16Unm, subC16Sched, subC16Hist, subC16Fresh},
 		BudgetQuick:    100,
 		BudgetThorough: 1500,
 		Assumptions: []string{"hash seeds are observable only through map iteration order and CPU counts only through scheduling; both are enumerated instead of sampled",
-			"histories are limited to the 12-call alphabet"},
+			"histories are limited to the 14-call alphabet"},
 		Run: func(c *fw.Ctx) {
 			for first := range c15RecTargets {
 				c.Do(subC16Fresh, &c16FreshCase{First: first})
